@@ -213,10 +213,14 @@ def run_shard(ctx):
   m = pipeline.mods()
   pipeline.enable_library_memo()
   counters = hooks.install_counters(['UDF'])
+  from vf.mon import udf_contracts
+  udf_state = udf_contracts.install()
   scalars(ctx)
   aggregates_part(ctx, m)
   for k, v in counters.items():
     ctx.count(k, v)
+  ctx.count('udf_contract_evaluations', udf_state['evaluations'])
+  ctx.count('udf_contracts_via_icontract', 1 if udf_state['icontract'] else 0)
 
 
 def scalars(ctx):
@@ -345,6 +349,10 @@ def aggregates_part(ctx, m):
           ctx.count('aggregate_ok')
         ties = len({v for _, v, _ in perm}) < len(perm)
         ctx.case(stable_hash(['agg', p, list(map(list, perm))]), ok_all and (ties or not perm or len(perm) >= 2))
+        from vf.mon import udf_contracts
+        for what, det in udf_contracts.drain()[:2]:
+          ctx.violation(None, 'ArgMin/ArgMax UDF invariant broken while evaluating %s over rows %s: %s %s' % (p[1:], list(perm), what, det),
+                        {'kind': 'aggregate', 'predicate': p, 'rows': [list(r) for r in perm], 'invariant': what})
       con.close()
     # order independence: every order gives the identical value (List: same multiset; Arg*: admissible sets already checked)
     for (p, k), vals in results.items():
@@ -368,6 +376,8 @@ def aggregates_part(ctx, m):
 def finalize(agg, tier):
   out = []
   c = agg['counters']
+  if not c.get('udf_contract_evaluations'):
+    out.append('the UDF invariants were never evaluated')
   for k in ('scalar_evaluations', 'scalar_ok', 'aggregate_evaluations', 'aggregate_ok', 'orders_compared', 'order_invariant_groups', 'ArgMin.step',
             'ArgMax.step', 'DistinctListAgg.step'):
     if not c.get(k):
